@@ -58,8 +58,11 @@ def child_main(path):
     kind = job['job']
     if kind == 'build':
         a = archmon.public_open(b, root, False)
-        for k, v in job['items']:
-            a[dec(k)] = dec(v)
+        for rnd in range(int(job.get('history', 0)), -1, -1):
+            for k, v in job['items']:
+                # earlier rounds store older values first: the final state is `items`, but each key
+                # has been overwritten `history` times (the sqlite table keeps those rows)
+                a[dec(k)] = dec(v) if rnd == 0 else 'old%d-%s' % (rnd, json.dumps(k))
         return
     if kind == 'read':
         out = {}
@@ -207,7 +210,7 @@ def gen_case(rng, prop='C13'):
         else:
             continue
         break
-    return {'backend': b, 's0': s0, 'op': op, 'seed': rng.randrange(1 << 30)}
+    return {'backend': b, 's0': s0, 'op': op, 'history': rng.choice([0, 0, 1, 2]), 'seed': rng.randrange(1 << 30)}
 
 
 def as_map(report_items):
@@ -315,7 +318,8 @@ def run_case(case, prop='C13'):
     with Scratch('cr') as sc:
         s0 = os.path.join(sc, 's0')
         os.makedirs(s0)
-        rc, out = run_child({'job': 'build', 'backend': b, 'root': s0, 'items': case['s0']}, sc, 'build')
+        rc, out = run_child({'job': 'build', 'backend': b, 'root': s0, 'items': case['s0'],
+                             'history': case.get('history', 0)}, sc, 'build')
         if rc != 0:
             return [{'property': 'C13', 'kind': 'harness-build-failed', 'msg': out, 'mech': [], 'case': case}], cnt, {}
         # dry run: event list and completed state
